@@ -59,6 +59,13 @@ func main() {
 			}
 			prog := pc.Load(dir)
 			fmt.Print(prog.Grammar().Dump())
+		case "anchors":
+			// development: prints the fingerprint table (internal/pc/anchors_gen.go) of the tree under review
+			dir := "/repo"
+			if d := os.Getenv("PQL_REPO"); d != "" {
+				dir = d
+			}
+			fmt.Print(pc.Load(dir).AnchorsSource())
 		case "list":
 			for _, id := range pc.PropertyIDs() {
 				fmt.Println(id)
